@@ -358,7 +358,10 @@ type OpRec struct {
 	FmtSeen  []string // issues observed by the execution-level formatter, in order: "path|code"
 	Injected []string
 	Validate bool
-	LastCtx  z.Ctx // the context the last callback of this operation was handed
+	LastCtx  z.Ctx  // the context the last callback of this operation was handed
+	Reenter  int    // 1-based index of the callback invocation that runs nested executions (0: never)
+	Nested   int    // nested executions run
+	NestBad  string // a nested execution did not return what it returns on its own
 }
 
 type injectedPanic struct{ msg string }
@@ -373,6 +376,8 @@ type Engine struct {
 	// long-lived issues of the caller ("errors as values": var errTaken = &z.ZogIssue{...}) that callbacks return again
 	// and again; they are complete (code, message, type), so the library has nothing to add to them - and they stay the caller's
 	Sentinels []*OwnedIssue
+	innerStr  *z.StringSchema[string]
+	innerList *z.SliceSchema
 }
 
 type OwnedIssue struct {
@@ -385,6 +390,34 @@ func (e *Engine) sentinel(n *Node, idx int) *z.ZogIssue {
 	iss := &z.ZogIssue{Code: "pt_sentinel", Message: fmt.Sprintf("pt-sentinel n%d#%d", n.ID, idx), Dtype: "string"}
 	e.Sentinels = append(e.Sentinels, &OwnedIssue{Iss: iss, Orig: fmt.Sprintf("%+v", *iss), Node: n.ID})
 	return iss
+}
+
+// nested runs, from inside a callback of a running execution, two complete executions of small schemas of its own (a
+// test that validates a related value with another schema is ordinary use). They take and return pool objects while the
+// outer execution holds its own; they must return what they return on their own, and the outer execution must not notice.
+func (e *Engine) nested(rec *OpRec) {
+	if e.innerStr == nil {
+		e.innerStr = z.String().Min(3)
+		e.innerList = z.Slice(z.Int().GT(5))
+	}
+	rec.Nested++
+	var s string
+	l := e.innerStr.Parse("ab", &s)
+	var xs []int
+	m := e.innerList.Parse([]any{1, 9, 2}, &xs)
+	r1, r2 := &Result{}, &Result{}
+	r1.fill(l)
+	r2.fill(m)
+	got := fmt.Sprintf("%v dest=%q | %v dest=%v", r1.PCTs(), s, r2.PCTs(), xs)
+	const want = `[|min|string] dest="ab" | [[0]|gt|number [2]|gt|number] dest=[1 9 2]`
+	if got != want && rec.NestBad == "" {
+		rec.NestBad = fmt.Sprintf("nested executions returned %s, on their own they return %s", got, want)
+	}
+	if rec.Reenter%2 == 0 {
+		// ... and hands its results back before the outer execution continues
+		collectRaw("CollectList", l)
+		collectRaw("CollectMap", m)
+	}
 }
 
 // SentinelsChanged reports the first caller-owned issue that no longer is what the caller made it.
@@ -469,6 +502,9 @@ func (e *Engine) record(n *Node, kind string, idx int, arg any, ctx z.Ctx, wantA
 	c.Issues = len(rec.FmtSeen)
 	rec.Calls = append(rec.Calls, c)
 	rec.CbCount++
+	if rec.Reenter > 0 && rec.CbCount == rec.Reenter {
+		e.nested(rec)
+	}
 	if rec.PanicAt > 0 && rec.CbCount == rec.PanicAt {
 		rec.Injected = append(rec.Injected, "cb_panic")
 		panic(injectedPanic{"injected callback panic"})
